@@ -107,6 +107,50 @@ class QfixedImp(float, Qtype):
         v_bool = cls(v).to_bool()
         return (cls, v_bool)
 
+    # Values of different Qfixed types
+
+    @classmethod
+    def _realign(cls, v: TExp) -> TExp:
+        """Express a Qfixed value in this type keeping the binary point where it is:
+        integer bits are added (or dropped) on the most significant side, fractional
+        bits on the least significant one"""
+        ip = QfixedImp.integer_part(v)
+        fp = QfixedImp.fractional_part(v)
+        ip = (ip + [False] * cls.BIT_SIZE_INTEGER)[: cls.BIT_SIZE_INTEGER]
+        fp = (fp + [False] * cls.BIT_SIZE_FRACTIONAL)[: cls.BIT_SIZE_FRACTIONAL]
+        return (cls, ip + fp)
+
+    @classmethod
+    def fill(cls, v: TExp) -> TExp:
+        if v[0] != cls and isinstance(v[0], type) and issubclass(v[0], QfixedImp):
+            if (
+                v[0].BIT_SIZE_INTEGER > cls.BIT_SIZE_INTEGER
+                or v[0].BIT_SIZE_FRACTIONAL > cls.BIT_SIZE_FRACTIONAL
+            ):
+                raise TypeErrorException(v[0], cls)
+            return cls._realign(v)
+        return super().fill(v)
+
+    @classmethod
+    def crop(cls, v: TExp) -> TExp:
+        if v[0] != cls and isinstance(v[0], type) and issubclass(v[0], QfixedImp):
+            return cls._realign(v)
+        return super().crop(v)
+
+    @staticmethod
+    def _common(tleft: TExp, tright: TExp):
+        """Bring two Qfixed values to the smallest shipped type holding both"""
+        if tleft[0] == tright[0]:
+            return tleft, tright
+
+        i_size = max(tleft[0].BIT_SIZE_INTEGER, tright[0].BIT_SIZE_INTEGER)
+        f_size = max(tleft[0].BIT_SIZE_FRACTIONAL, tright[0].BIT_SIZE_FRACTIONAL)
+        for t in sorted(QFIXED_TYPES, key=lambda t: t.BIT_SIZE):
+            if t.BIT_SIZE_INTEGER >= i_size and t.BIT_SIZE_FRACTIONAL >= f_size:
+                return t._realign(tleft), t._realign(tright)
+
+        raise TypeErrorException(tright[0], tleft[0])
+
     # Comparators
 
     @staticmethod
@@ -141,6 +185,7 @@ class QfixedImp(float, Qtype):
 
     @staticmethod
     def eq(tleft: TExp, tcomp: TExp) -> TExp:
+        tleft, tcomp = QfixedImp._common(tleft, tcomp)
         ex = true
         for x in zip(tleft[1], tcomp[1]):
             ex = And(ex, _eq(x[0], x[1]))
@@ -149,6 +194,7 @@ class QfixedImp(float, Qtype):
 
     @staticmethod
     def neq(tleft: TExp, tcomp: TExp) -> TExp:
+        tleft, tcomp = QfixedImp._common(tleft, tcomp)
         ex = false
         for x in zip(tleft[1], tcomp[1]):
             ex = Or(ex, _neq(x[0], x[1]))
@@ -162,6 +208,7 @@ class QfixedImp(float, Qtype):
         if not issubclass(tcomp[0], QfixedImp):
             raise TypeErrorException(tcomp[0], QfixedImp)
 
+        tleft, tcomp = QfixedImp._common(tleft, tcomp)
         tleft_e = cast(Qtype, tleft)
         tcomp_e = cast(Qtype, tcomp)
 
@@ -213,14 +260,9 @@ class QfixedImp(float, Qtype):
         if not issubclass(tleft[0], QfixedImp):
             raise TypeErrorException(tleft[0], QfixedImp)
 
+        tleft, tright = QfixedImp._common(tleft, tright)
         tright_e = cast(Qtype, tright)
         tleft_e = cast(Qtype, tleft)
-
-        if len(tleft_e[1]) > len(tright_e[1]):
-            tright_e = tleft_e[0].fill(tright_e)
-
-        elif len(tleft_e[1]) < len(tright_e[1]):
-            tleft_e = tright_e[0].fill(tleft_e)
 
         tl_v = QfixedImp._to_qint_repr(tleft_e)
         tr_v = QfixedImp._to_qint_repr(tright_e)
@@ -236,6 +278,10 @@ class QfixedImp(float, Qtype):
             raise TypeErrorException(tleft[0], Qtype)
         if not issubclass(tright[0], Qtype):
             raise TypeErrorException(tright[0], Qtype)
+
+        if issubclass(tleft[0], QfixedImp) and issubclass(tright[0], QfixedImp):
+            tleft, tright = QfixedImp._common(tleft, tright)
+            cls = tleft[0]
 
         an = cls.bitwise_not(cls.fill(tleft))
         su = cls.add(an, cls.fill(tright))
